@@ -33,7 +33,7 @@ func runC05(c *Ctx) *Replay {
 	}
 	b := pk.B
 	nrec := c.R.Range(1, 6)
-	sc := Scenario{Kind: "history", Prog: b.Prog.ID, Mask: b.Mask, PeerMask: -1, Type: pk.Type, Order: drawOrder(c.R), Trail: c.R.Range(1, 9)}
+	sc := Scenario{Kind: "history", Prog: b.Prog.ID, Mask: b.Mask, PeerMask: -1, Type: pk.Type, Order: drawOrder(c.R), Trail: c.R.Range(0, 9)}
 	recs := b.Schema.Records()
 	for i := 0; i < nrec; i++ {
 		typ := pk.Type
